@@ -3040,6 +3040,16 @@ foamTagFormat(Foam foam)
 		si = isNary ? argc : foamArgv(foam)[0].data;
 
 		/*
+		 * A Prog stores a compressible integer (the format of its
+		 * return values) next to its argument count, so, as for
+		 * Decl above, the format number must be wide enough for both.
+		 */
+		if (tag == FOAM_Prog && argc > 3) {
+			di = foam->foamProg.format;
+			if (di > si) si = di;
+		}
+
+		/*
 		 * !! HACK. The first test is here due to a bug discovered
 		 * after the freeze of v. 0.37 (EInfo is in the wrong position
 		 * in foamTag enumeration). Without this hack we should change
